@@ -79,6 +79,14 @@ class StrandOracle(FOracle):
                            "%s: space request on %s granted at %s is unused at the end of instant %s (the finished item was not pushed)" % (
                                nid, unused[0].edge, unused[0].t_grant, now))
                     continue
+                # a pending space request although the edge has room: the finished item is held back
+                stuck = [t for t in puts if t.state == "pending" and f.edge_spec[t.edge]["kind"] in ("Buffer", "Fleet")
+                         and edge_room(f, t.edge) > 0]
+                if stuck:
+                    self.v(nid, (kind, "out", policy_class(ns.get("out_sel", "-")), "stranded_out", "room"),
+                           "%s waits with a finished item for %s (request of t=%s) although that edge has room for %d at the end of instant %s" % (
+                               nid, stuck[0].edge, stuck[0].t_issue, edge_room(f, stuck[0].edge), now))
+                    continue
             # ---------------- input side
             if kind in ("Machine", "Sink"):
                 unused = [t for t in gets if t.state == "granted"]
